@@ -56,13 +56,13 @@ def cases_from_model(ctx: Ctx) -> List[dict]:
         out = r['out']
         for m in re.finditer(r'<<\s*"BEHAVIOUR",', out):
             val = tlc._tla_to_py(' '.join(tlc.balanced(out, m.start()).split()))
-            if not isinstance(val, list) or len(val) != 7:
+            if not isinstance(val, list) or len(val) != 8:
                 raise Machinery('cannot parse BEHAVIOUR value: %r' % (val,))
-            key = repr(val[1:6])
+            key = repr(val[1:6] + [val[7]])
             if key in seen:
                 continue
             seen.add(key)
-            res.append({'q': val[1], 'ucastSrc': val[2], 'probe': val[3], 'known': sorted(val[4] or []), 'rec': val[5], 'model_out': val[6]})
+            res.append({'q': val[1], 'ucastSrc': val[2], 'probe': val[3], 'known': sorted(val[4] or []), 'rec': val[5], 'model_out': val[6], 'first': val[7]})
     for k, c in enumerate(res):
         c['id'] = 'route-%d' % k
     return res
@@ -129,8 +129,18 @@ def run_case(env: _Env, c: dict) -> dict:
             'a': (H, 1, 1, 120, socket.inet_aton('10.0.0.1')), 'enum': (E, 12, 1, 4500, T)}
     ans = [full[k] for k in c['known']]
     auth = [full['ptr']] if c['probe'] else []
-    data = wire.build(id_=0, flags=0, questions=qs, answers=ans, authorities=auth)
-    res = env.qh.async_response([DNSIncoming(data, now=NOW)], bool(c['ucastSrc']))
+    first = c.get('first', len(qs))
+    if first >= len(qs):
+        data = wire.build(id_=0, flags=0, questions=qs, answers=ans, authorities=auth)
+        msgs = [DNSIncoming(data, now=NOW)]
+    else:
+        # a truncated query in two packets: the first `first` questions (and the known answers) in the packet with the TC flag, the
+        # other questions (and the authority section of a probe) in the packet that completes it
+        # (the known answers travel with the authority section when there is one: what a probe lists as answers is not a known answer)
+        d1 = wire.build(id_=0, flags=0x0200, questions=qs[:first], answers=[] if auth else ans)
+        d2 = wire.build(id_=0, flags=0, questions=qs[first:], answers=ans if auth else [], authorities=auth)
+        msgs = [DNSIncoming(d1, now=NOW), DNSIncoming(d2, now=NOW)]
+    res = env.qh.async_response(msgs, bool(c['ucastSrc']))
     out: Dict[str, Any] = {'u': [], 'now': [], 'agg': [], 'last': [], 'adds': {r: [] for r in ('ptr', 'srv', 'txt', 'a', 'nsec', 'enum')}}
     if res is not None:
         for key, d in (('u', res.ucast), ('now', res.mcast_now), ('agg', res.mcast_aggregate), ('last', res.mcast_aggregate_last_second)):
@@ -141,7 +151,7 @@ def run_case(env: _Env, c: dict) -> dict:
                 out['adds'][nm] = sorted(set(out['adds'][nm]) | {env.name_of(a) for a in adds})
             out[key].sort()
     return {'id': c['id'], 'q': c['q'], 'ucastSrc': bool(c['ucastSrc']), 'probe': bool(c['probe']), 'known': c['known'],
-            'rec': c['rec'], 'out': out}
+            'rec': c['rec'], 'out': out, 'first': c.get('first', len(c['q']))}
 
 
 def run(ctx: Ctx, own: str, only: Any = None) -> None:
